@@ -27,8 +27,8 @@ meta = {
     "property": prop,
     "source": "independent sub-agent given only the property text and a scratch worktree of /repo",
     "files_changed": sorted(set(re.findall(r"^\+\+\+ b/(\S+)", open(f"{dst}/patch.diff").read(), re.M))),
-    "needs_to_manifest": "see notes.md (section for change %s)" % (k if int(k) <= 2 else int(k) - 2),
-    "round": 1 if int(k) <= 2 else 2,
+    "needs_to_manifest": "see notes.md (section for change %s)" % ((int(k) - 1) % 2 + 1),
+    "round": (int(k) + 1) // 2,
     "confirmed_by_me": {
         "repo_head_when_confirmed": ev.get("head"),
         "demo_on_clean_tree_exit": ev.get("demo_clean_exit"),
